@@ -451,6 +451,16 @@ impl Engine for TrackerEngine {
         if prop == "C05" {
             base.cfg.shards = 1;
         }
+        if prop == "C05" || prop == "C04" {
+            // the run that supplies the tie filter needs physical snapshots after every
+            // batch, i.e. results read by the submitting thread; who reads the results
+            // must not matter, and the other executions keep their consumer threads
+            for op in base.ops.iter_mut() {
+                if let TOp::Batch { consumer, .. } = op {
+                    *consumer = Consumer::Same;
+                }
+            }
+        }
         let (h0, abort) = exec_tracker(&mut out, &plan, 0, prop == "C05", &base, true);
         if !abort.is_empty() {
             out.violation = own(&mut out, prop, abort);
@@ -618,14 +628,18 @@ impl Engine for TrackerEngine {
                 let mut c = base.clone();
                 c.cfg.kind = base.cfg.kind.simple_twin();
                 c.cfg.shards = variants.first().and_then(|v| v["shards"].as_u64()).unwrap_or(1) as usize;
-                let (h, abort) = exec_tracker(&mut out, &plan, 1, true, &c, false);
+                let (h, abort) = exec_tracker(&mut out, &plan, 1, true, &c, true);
                 if !abort.is_empty() {
                     out.stats.probe("twin_aborted", 1);
                     return out;
                 }
                 let Some(h) = h else { return out };
                 let wt = walk(&c, &h);
-                let upto = upto.min(wt.stats.first_ambiguous_op.unwrap_or(c.ops.len()));
+                // the simple tracker is the specification: where ITS step is uniquely
+                // determined the batch tracker must agree, whatever the batch run's own
+                // (possibly snapshot-less) view says
+                let _ = upto;
+                let upto = wt.stats.first_ambiguous_op.unwrap_or(c.ops.len());
                 // a dropped-early batch ends the comparable prefix
                 let upto = base
                     .ops
